@@ -3,7 +3,7 @@ from __future__ import annotations
 
 from hypothesis import strategies as st
 
-from ..core import Clause, Dev, eq, expect_raise, true
+from ..core import Clause, Dev, eq, expect_raise, pack_fresh, scribble, true
 from ..prop import Property
 from ..ref import ccsds as RC
 from ..ref import pus as RP
@@ -135,6 +135,60 @@ def check_tm(c):
         eq(devs, "srv17.dec.fields", obs_tm(d17), wo)
         eq(devs, "srv17.dec.repack", bytes(d17.pack()), want)
         true(devs, "srv17.dec.eq_inner", d17.pus_tm == tm, "Service17Tm.unpack(...).pus_tm != original")
+    if len(src) <= 4096:
+        devs.extend(_tm_histories(sp, tmm, check_pus_crc, Service17Tm, c, stamp, src, want, wo, tm))
+    return devs
+
+
+def _tm_histories(sp, tmm, check_pus_crc, Service17Tm, c, stamp, src, want, wo, tm):
+    """Short call histories: views before packing, caller-owned mutable buffers, decoding out of a longer receive buffer,
+    fields changed through the public header objects."""
+    devs = []
+    ts = len(stamp)
+    pack_fresh(devs, "hist.pack_returns_fresh_buffer", tm.pack, want)
+    c_src, c_stamp = bytearray(src), bytearray(stamp)
+    t = build_tm(tmm, c, c_stamp, c_src)
+    eq(devs, "hist.bytearray_inputs.view1", bytes(t.to_space_packet().pack()), want)
+    eq(devs, "hist.bytearray_inputs.view2", bytes(t.to_space_packet().pack()), want)
+    eq(devs, "hist.bytearray_inputs.pack_after_views", bytes(t.pack()), want)
+    eq(devs, "hist.bytearray_inputs.packet_len_after_views", t.packet_len, len(want))
+    eq(devs, "hist.bytearray_inputs.caller_source_data_untouched", bytes(c_src), src)
+    eq(devs, "hist.bytearray_inputs.caller_timestamp_untouched", bytes(c_stamp), stamp)
+    # decoded out of a longer receive buffer which the caller then reuses
+    buf = bytearray(want + b"\x08\x01\xc0\x00\x00")
+    d = tmm.PusTm.unpack(buf, ts)
+    scribble(buf)
+    eq(devs, "hist.decoded_from_longer_buffer.fields", obs_tm(d), wo)
+    eq(devs, "hist.decoded_from_longer_buffer.crc16", bytes(d.crc16), want[-2:])
+    eq(devs, "hist.decoded_from_longer_buffer.view", bytes(d.to_space_packet().pack()), want)
+    eq(devs, "hist.decoded_from_longer_buffer.view_again", bytes(d.to_space_packet().pack()), want)
+    eq(devs, "hist.decoded_from_longer_buffer.repack", bytes(d.pack()), want)
+    if c["service"] == 17:
+        d17 = Service17Tm.unpack(bytes(want) + b"\x08\x01", ts)
+        eq(devs, "hist.srv17_from_longer_buffer.view", bytes(d17.pus_tm.to_space_packet().pack()), want)
+        eq(devs, "hist.srv17_from_longer_buffer.crc16", bytes(d17.pus_tm.crc16), want[-2:])
+    # source data replaced on a decoded / composed object (any timestamp length), then packed
+    src2 = src[: len(src) // 2] + b"\x5a"
+    want3 = RP.pus_tm(c["apid"], c["seq"], c["service"], c["subservice"], c["msg_counter"], c["dest_id"], c["time_ref"], stamp, src2, ver=c["ver"])
+    sec = tmm.PusTmSecondaryHeader.unpack(want[6:], ts)
+    for tag, obj in (("decoded", tmm.PusTm.unpack(want, ts)), ("composed", tmm.PusTm.from_composite_fields(sp.SpacePacketHeader.unpack(want), sec, src))):
+        obj.tm_data = src2
+        eq(devs, f"hist.source_data_replaced.{tag}.pack", bytes(obj.pack()), want3)
+        eq(devs, f"hist.source_data_replaced.{tag}.packet_len", obj.packet_len, len(want3))
+    # changed through the public header objects after packing / decoding; view before the next pack
+    o_service, o_sub, o_seq, o_apid, o_cnt = (c["service"] + 1) % 256, (c["subservice"] + 3) % 256, (c["seq"] + 1) % 16384, (c["apid"] + 1) % 2048, (c["msg_counter"] + 1) % 65536
+    want2 = RP.pus_tm(o_apid, o_seq, o_service, o_sub, o_cnt, c["dest_id"], c["time_ref"], stamp, src, ver=c["ver"])
+    for tag, obj in (("packed", build_tm(tmm, c, stamp, src)), ("decoded", tmm.PusTm.unpack(want, ts))):
+        obj.pack()
+        obj.pus_tm_sec_header.service = o_service
+        obj.pus_tm_sec_header.subservice = o_sub
+        obj.pus_tm_sec_header.message_counter = o_cnt
+        obj.sp_header.seq_count = o_seq
+        obj.sp_header.apid = o_apid
+        view = bytes(obj.to_space_packet().pack())
+        eq(devs, f"hist.header_objects_changed.{tag}.view_before_pack", view, want2)
+        true(devs, f"hist.header_objects_changed.{tag}.view_crc", check_pus_crc(view) is True, "space-packet view carries a stale CRC")
+        eq(devs, f"hist.header_objects_changed.{tag}.pack", bytes(obj.pack()), want2)
     return devs
 
 
